@@ -9,7 +9,7 @@ from .. import stockcases as SC
 from ._arr import _locate
 
 N_CHUNKS = 32
-FUNCS = {"tables": SC.case_tables, "inflow": SC.case_inflow_driven, "stockdriven": SC.case_stock_driven, "simple": SC.case_simple, "zero": SC.case_zero_roundtrip, "failed": SC.case_failed_compute, "balcheck": SC.case_balance_check}
+FUNCS = {"tables": SC.case_tables, "inflow": SC.case_inflow_driven, "stockdriven": SC.case_stock_driven, "simple": SC.case_simple, "zero": SC.case_zero_roundtrip, "failed": SC.case_failed_compute, "balcheck": SC.case_balance_check, "setting-failure": SC.case_setting_failure}
 
 
 def _worker(prog, rep, job):
